@@ -7,7 +7,9 @@ EXTRA = [
     corpus.G("m02", "abc", ["Sx", ("Px", True)], [("Sx", "Px c"), ("Px", "a b"), ("Px", "a Px b")]),
     corpus.G("m03", "abcd", ["Sx"], [("Sx", "a Bx"), ("Sx", "b Bx"), ("Sx", "c Cx"), ("Sx", "d Cx"), ("Bx", "a a"), ("Cx", "a a")]),      # mergeable tails
     corpus.G("m04", "abc", ["Sx", "Tx"], [("Sx", "a Ux"), ("Tx", "b Ux"), ("Ux", "c"), ("Ux", "c Ux")]),
-    corpus.G("m05", "xy", [("Nx", True)], [("Nx", "Nx x"), ("Nx", "y x")]),                                                               # no-eoi input whose final state looks like an ordinary one
+    corpus.G("m05", "xy", [("Nx", True)], [("Nx", "Nx x"), ("Nx", "y x")]),
+    corpus.G("m06", "ac", ["Sx"], [("Sx", "Sx a"), ("Sx", "a"), ("Sx", "Cx a"), ("Cx", "c")]),                                            # left-recursive input: its pre-final state has a twin without the eoi edge
+    corpus.G("m07", "abc", ["Sx", "Tx"], [("Sx", "Sx b"), ("Sx", "Tx"), ("Tx", "Tx a"), ("Tx", "c"), ("Tx", "c Sx c")]),                  # two left-recursive inputs, one nested in the other                                                               # no-eoi input whose final state looks like an ordinary one
 ]
 
 
